@@ -18,6 +18,7 @@ type FS interface {
 	ReadFile(name string) ([]byte, error)
 	ReadDir(name string) ([]fs.DirEntry, error)
 	Remove(name string) error
+	Rename(oldpath, newpath string) error
 }
 
 func fsHook() FS {
@@ -53,6 +54,13 @@ func ReadDir(name string) ([]fs.DirEntry, error) {
 		return f.ReadDir(name)
 	}
 	return os.ReadDir(name)
+}
+
+func Rename(oldpath, newpath string) error {
+	if f := fsHook(); f != nil {
+		return f.Rename(oldpath, newpath)
+	}
+	return os.Rename(oldpath, newpath)
 }
 
 func Remove(name string) error {
